@@ -165,7 +165,7 @@ func quoteField(q *ref.Quote, name string) []byte {
 	return nil
 }
 
-var optKinds = []string{"nil", "empty", "equal", "first-differs", "last-differs", "random-differs", "one-short", "one-long", "all-zero", "double", "plus-256", "plus-512", "plus-65536"}
+var optKinds = []string{"nil", "empty", "equal", "first-differs", "last-differs", "random-differs", "byte-8-differs", "byte-15-differs", "byte-9-from-end-differs", "middle-byte-differs", "one-short", "one-long", "all-zero", "double", "plus-256", "plus-512", "plus-65536"}
 
 // variant derives an option value of the given kind from the quote's actual value.
 func variant(r *mrand.Rand, kind string, actual []byte) []byte {
@@ -182,6 +182,12 @@ func variant(r *mrand.Rand, kind string, actual []byte) []byte {
 		c[len(c)-1] ^= 0x80
 	case "random-differs":
 		c[r.Intn(len(c))] ^= byte(1 + r.Intn(255))
+	case "byte-8-differs", "byte-15-differs", "byte-9-from-end-differs", "middle-byte-differs": // positions an abbreviated rendering leaves out
+		at := map[string]int{"byte-8-differs": 8, "byte-15-differs": 15, "byte-9-from-end-differs": len(c) - 9, "middle-byte-differs": len(c) / 2}[kind]
+		if at < 0 || at >= len(c) {
+			at = len(c) / 2
+		}
+		c[at] ^= 0x10
 	case "one-short":
 		c = c[:len(c)-1]
 	case "one-long":
@@ -294,6 +300,52 @@ func c08(x *mon.Ctx) {
 					l = append(l, v)
 				}
 				add("any-mr-td", fmt.Sprintf("len%d/%s#%d", n, comp, rep), qp, ref.Policy{AnyMrTd: l})
+			}
+		}
+		// long allow-lists (a fleet's worth of permitted measurements: there is no limit on their number), around the sizes
+		// at which an implementation might switch from a scan to an index (16, 32, 64, ...)
+		if rep < x.Pick(1, 4) {
+			for _, n := range []int{5, 16, 31, 32, 33, 34, 63, 64, 65, 100, 257, 1000} {
+				for _, comp := range []string{"none-matches", "first-matches", "middle-matches", "last-matches", "match-before-sibling-with-same-first-8-bytes", "match-after-sibling-with-same-first-8-bytes", "only-sibling-with-same-first-40-bytes",
+					"49-byte-entry-starting-with-mr-td", "96-byte-entry-starting-with-mr-td", "47-byte-prefix-of-mr-td", "empty-entry-among-others", "match-and-49-byte-entry"} {
+					l := make([][]byte, n)
+					for i := range l {
+						l[i] = make([]byte, 48)
+						r.Read(l[i])
+					}
+					sib := func(keep int) []byte {
+						v := append([]byte{}, q.MrTd...)
+						for j := keep; j < 48; j++ {
+							v[j] ^= 0xa5
+						}
+						return v
+					}
+					switch comp {
+					case "first-matches":
+						l[0] = append([]byte{}, q.MrTd...)
+					case "middle-matches":
+						l[n/2] = append([]byte{}, q.MrTd...)
+					case "last-matches":
+						l[n-1] = append([]byte{}, q.MrTd...)
+					case "match-before-sibling-with-same-first-8-bytes":
+						l[n/3], l[n-1] = append([]byte{}, q.MrTd...), sib(8)
+					case "match-after-sibling-with-same-first-8-bytes":
+						l[n/3], l[n-1] = sib(8), append([]byte{}, q.MrTd...)
+					case "only-sibling-with-same-first-40-bytes":
+						l[n/2] = sib(40)
+					case "49-byte-entry-starting-with-mr-td":
+						l[n/2] = append(append([]byte{}, q.MrTd...), 0)
+					case "96-byte-entry-starting-with-mr-td":
+						l[n-1] = append(append([]byte{}, q.MrTd...), q.MrTd...)
+					case "47-byte-prefix-of-mr-td":
+						l[n/2] = append([]byte{}, q.MrTd[:47]...)
+					case "empty-entry-among-others":
+						l[n/2] = []byte{}
+					case "match-and-49-byte-entry":
+						l[0], l[n-1] = append([]byte{}, q.MrTd...), append(append([]byte{}, q.MrTd...), 7)
+					}
+					add("any-mr-td-long", fmt.Sprintf("len%d/%s#%d", n, comp, rep), qp, ref.Policy{AnyMrTd: l})
+				}
 			}
 		}
 		// MinimumTeeTcbSvn lengths
@@ -465,6 +517,28 @@ func c08(x *mon.Ctx) {
 	for _, n := range exactNames {
 		x.Require("exact/"+n, 6, 8, 20)
 	}
+	// the field-by-field and list cases once more with the library logging at verbosity 2 (what `check -verbosity 2` runs with:
+	// every value that is compared is also rendered for the trace): the same verdicts, and the options are left as they were
+	x.AtVerbosity(2, func() {
+		var vc []*pcase
+		for _, c := range cases {
+			if strings.HasPrefix(c.Class, "exact/") || strings.HasPrefix(c.Class, "any-mr-td") || c.Class == "rtmrs" {
+				cp := *c
+				cp.Class = "verbose/" + c.Class
+				vc = append(vc, &cp)
+			}
+		}
+		x.Each(len(vc), func(i int) {
+			c := vc[i]
+			x.Crumb(i, "policy", c)
+			p, acc, exact := policyProblem(c)
+			if p != "" {
+				x.Violation(c.Class, c.Param, p+" (library logging at verbosity 2)", "policy", c)
+			}
+			x.Note("verbose/field-and-list-cases", c.Class+"/"+c.Param, acc, strings.HasPrefix(p, "validation panics"), exact || p == "")
+		})
+		x.Require("verbose/field-and-list-cases", 50, 200, len(vc))
+	})
 	x.Require("xfam-bit", 12, 100, 128)
 	// ---- allow-list entries that CONTAIN the quote's MR_TD across an entry boundary (A ends with its first c bytes, B starts with
 	//      the rest): membership is per entry
@@ -611,6 +685,63 @@ func c08(x *mon.Ctx) {
 		}
 	}
 	x.Require("one-options-many-quotes", 40, 40, 400)
+
+	// ---- the caller edits its options value between calls (a measurement withdrawn from the allow-list, an expectation
+	//      changed in place): the next validation is judged by what the value holds NOW, whatever it held a call ago
+	{
+		n := 0
+		for h, size := range []int{1, 2, 5, 31, 32, 33, 48, 64, 65, 100, 300} {
+			r := x.Rand(fmt.Sprint("edited-options", h))
+			qp := policyQuote(r)
+			rq, _ := ref.ParseQuote(qp.Bytes())
+			m := mon.BuildMessage(rq)
+			at := (h * 7) % size
+			l := make([][]byte, size)
+			for i := range l {
+				l[i] = make([]byte, 48)
+				r.Read(l[i])
+			}
+			l[at] = append([]byte{}, rq.MrTd...)
+			o := &validate.Options{TdQuoteBodyOptions: validate.TdQuoteBodyOptions{AnyMrTd: l, MrOwner: append([]byte{}, rq.MrOwner...)}}
+			steps := []struct {
+				name string
+				edit func()
+				want bool
+			}{
+				{"as-built", func() {}, true},
+				{"entry-overwritten-in-place", func() { r.Read(o.TdQuoteBodyOptions.AnyMrTd[at]) }, false},
+				{"entry-restored-in-place", func() { copy(o.TdQuoteBodyOptions.AnyMrTd[at], rq.MrTd) }, true},
+				{"one-byte-of-entry-changed", func() { o.TdQuoteBodyOptions.AnyMrTd[at][47] ^= 1 }, false},
+				{"entry-replaced-by-new-slice", func() { o.TdQuoteBodyOptions.AnyMrTd[at] = append([]byte{}, rq.MrTd...) }, true},
+				{"mr-owner-changed-in-place", func() { o.TdQuoteBodyOptions.MrOwner[0] ^= 1 }, false},
+				{"mr-owner-restored", func() { o.TdQuoteBodyOptions.MrOwner[0] ^= 1 }, true},
+				{"list-truncated-before-entry", func() {
+					if at > 0 {
+						o.TdQuoteBodyOptions.AnyMrTd = o.TdQuoteBodyOptions.AnyMrTd[:at]
+					} else {
+						o.TdQuoteBodyOptions.AnyMrTd = [][]byte{make([]byte, 48)}
+					}
+				}, false},
+			}
+			var hist []string
+			for _, st := range steps {
+				st.edit()
+				var e error
+				pv, stk := mon.Guard(func() { e = validate.TdxQuote(m, o) })
+				hist = append(hist, fmt.Sprintf("%s:%v", st.name, e == nil))
+				param := fmt.Sprintf("list%d/%v", size, hist)
+				switch {
+				case pv != "":
+					x.Violation("options-edited-between-calls", param, "panic: "+pv+"\n"+stk, "none", param)
+				case (e == nil) != st.want:
+					x.Violation("options-edited-between-calls", param, fmt.Sprintf("after the edit %q the options value %s the quote's MR_TD / MR_OWNER, yet validation returned accepted=%v (%v): the verdict follows what the value held at an earlier call", st.name, map[bool]string{true: "permits", false: "no longer permits"}[st.want], e == nil, e), "none", param)
+				}
+				x.Note("options-edited-between-calls", param, e == nil, pv != "", true)
+				n++
+			}
+		}
+		x.Require("options-edited-between-calls", n/2-6, n/2-6, n)
+	}
 	x.Require("td-attributes-bit", 4, 100, 128)
 	x.Require("min-qe-svn", 15, 8, 25)
 	x.Require("min-pce-svn", 15, 8, 25)
